@@ -231,6 +231,10 @@ def apply_standard_rewrites(text, log):
     if n: log.append(('R4', 'bail!(..) -> return Err(verr()); message arguments that slice/index/unwrap are kept as `let _ = &(arg);`', n))
     text, n = strip_method_call(text, 'chain_err')
     if n: log.append(('R4', '.chain_err(..) dropped', n))
+    t2 = re.sub(r"\b(const|static)\s+(\w+)\s*:\s*&(?!\s*')", r"\1 \2: &'static ", text)
+    if t2 != text:
+        log.append(('R8', "explicit 'static lifetime on const/static reference types (required inside verus!)", 1))
+        text = t2
     text, n = drop_cfg_wasm(text)
     if n: log.append(('R8', 'cfg(wasm) items dropped / cfg(not(wasm)) attribute dropped', n))
     return text
